@@ -339,12 +339,14 @@ func (e *eng) enumerate(c record) {
 	s := c.s
 	r.Logf("record %q (%s, %d bytes)", clip(s), c.desc, len(s))
 	track := func(kind string) { r.Fault(kind) }
+	shown := 0
 	try := func(d, how, kind string) {
 		mark := len(r.Trace)
 		r.Logf("fault %s -> %q", how, clip(d))
 		track(kind)
 		e.decodeOne(c.kind, d, how)
-		if r.Tracing {
+		shown++
+		if r.Tracing && shown > 8 && shown%997 != 0 { // a few damaged records stay in the trace as samples
 			r.Trace = r.Trace[:mark]
 		}
 	}
